@@ -212,6 +212,27 @@ Definition seal (f : frame) : option (value * option node) :=
     if ok then Some (VPtr (f_count f), Some {| n_kind := c; n_items := items |}) else None
   end.
 
+(* Places that cannot take a not-yet-complete object (a Deferred in the implementation): the value of a
+   Copyable attribute (RemoteCopyUnslicer.receiveChild asserts) and a dict key (DictUnslicer.receiveKey raises).
+   A reference to a tuple / frozenset / Copyable whose unslicer is still on the stack is such an object. *)
+Definition is_imm_c (c : ckind) : bool := match c with CTuple | CFrozen | CCopy _ => true | _ => false end.
+Definition is_imm (k : kind) : bool := match k with KC c => is_imm_c c | _ => false end.
+Definition open_imm (s : list frame) (k : Z) : bool := existsb (fun f => is_imm (f_kind f) && (f_count f =? k)) s.
+
+Fixpoint hazard_pos (c : ckind) (odd : bool) (items : list value) (P : Z -> bool) : bool :=
+  match items with
+  | [] => false
+  | v :: r =>
+    (match c, odd, v with
+     | CCopy _, true, VPtr k => P k
+     | CDict, false, VPtr k => P k
+     | _, _, _ => false
+     end) || hazard_pos c (negb odd) r P
+  end.
+
+Definition frame_hazard (f : frame) (below : list frame) : bool :=
+  match f_kind f with KC c => hazard_pos c false (rev (f_items f)) (open_imm (f :: below)) | _ => false end.
+
 Definition step (st : mstate) (t : token) : option mstate :=
   match s_inopen st with
   | Some (hdr, cnt, idx) =>
@@ -246,7 +267,7 @@ Definition step (st : mstate) (t : token) : option mstate :=
           | KVocab => if even_len (f_items f)
                       then Some {| s_stack := r; s_inopen := None; s_counter := s_counter st; s_heap := s_heap st |} else None
           | _ =>
-          match seal f with
+          match (if frame_hazard f r then None else seal f) with
           | Some (v, nd) =>
             match recv r v with
             | Some r' => Some {| s_stack := r'; s_inopen := None; s_counter := s_counter st;
@@ -343,17 +364,27 @@ Definition shape_ok (c : ckind) (xs : list obj) : bool :=
   | _ => true
   end.
 
-Fixpoint wf_at (sc : bool) (vis : list Z) (n : Z) (t : obj) : option (list Z) :=
+(* `imm`: the OPEN numbers of the tuples / frozensets / Copyables that are still open (ancestors).
+   - a Copyable attribute value or a dict key must not be a reference to one of them (the implementation cannot
+     take it: known findings, see the C01_refuted theorems);
+   - a tuple / frozenset must not directly contain such a reference either: its completion would be deferred, which
+     the model does not represent (those graphs are covered by the correspondence and the oracle only). *)
+Definition ref_into (imm : list Z) (x : obj) : bool := match x with ORef k => mem k imm | _ => false end.
+
+Fixpoint wf_at (sc : bool) (vis imm : list Z) (n : Z) (t : obj) : option (list Z) :=
   match t with
   | ORef k => if sc && mem k vis then Some vis else None
   | OCont c xs =>
-    if shape_ok c xs then
+    let imm' := if is_imm_c c then n :: imm else imm in
+    if shape_ok c xs
+       && negb (hazard_pos c false (vals_list (n + 1) xs) (fun k => mem k imm'))
+       && negb (match c with CTuple | CFrozen => existsb (ref_into imm') xs | _ => false end) then
       let sc' := sc || is_scope c in
       let vis1 := if sc' && tracked c then n :: vis else vis in
       match (fix go (v : list Z) (m : Z) (l : list obj) : option (list Z) :=
                match l with
                | [] => Some v
-               | x :: r => match wf_at sc' v m x with Some v' => go v' (m + opens x) r | None => None end
+               | x :: r => match wf_at sc' v imm' m x with Some v' => go v' (m + opens x) r | None => None end
                end) vis1 (n + 1) xs with
       | Some v => Some (if is_scope c then vis else v)
       | None => None
@@ -361,16 +392,16 @@ Fixpoint wf_at (sc : bool) (vis : list Z) (n : Z) (t : obj) : option (list Z) :=
     else None
   | _ => Some vis
   end.
-Definition wf_list (sc : bool) := fix go (v : list Z) (m : Z) (l : list obj) : option (list Z) :=
+Definition wf_list (sc : bool) (imm : list Z) := fix go (v : list Z) (m : Z) (l : list obj) : option (list Z) :=
   match l with
   | [] => Some v
-  | x :: r => match wf_at sc v m x with Some v' => go v' (m + opens x) r | None => None end
+  | x :: r => match wf_at sc v imm m x with Some v' => go v' (m + opens x) r | None => None end
   end.
 
 (* a term is a complete message for a receiver whose counter is n: top level of a connection
    (no scope: storage's root is scoped, a Broker's is not) *)
 Definition wf_obj (scoped_root : bool) (n : Z) (t : obj) : bool :=
-  match wf_at scoped_root [] n t with Some _ => true | None => false end.
+  match wf_at scoped_root [] [] n t with Some _ => true | None => false end.
 
 (* no references at all: plain trees *)
 Fixpoint noref (t : obj) : bool :=
